@@ -42,6 +42,10 @@ feature kern {
   pos e <5 0 0 0>; pos d <6 0 0 0>;
   pos a' 50 x' -20 y;
 } kern;
+# two lookups with one and the same content, and two first glyphs with one and the same PairSet: tables that are
+# equal in structure are still separate tables (each has to be reordered)
+feature dst1 { pos d e -11; pos i x 12; pos i y 12; pos o x 12; pos o y 12; } dst1;
+feature dst2 { pos d e -11; pos i x 12; pos i y 12; pos o x 12; pos o y 12; } dst2;
 feature curs { pos cursive beh <anchor 10 0> <anchor 300 0>; pos cursive meem <anchor 20 5> <anchor 250 -3>; pos cursive z <anchor NULL> <anchor 100 0>; } curs;
 markClass acute <anchor 100 500> @TOP;
 markClass grave <anchor 120 500> @TOP;
